@@ -25,14 +25,41 @@ func childBudget(n int) time.Duration { return 60*time.Second + time.Duration(n/
 
 // TestLoopDeep: very deep nesting, run in a child process (a stack overflow is fatal and cannot be recovered).
 func TestLoopDeep(t *testing.T) {
-	ev.Checks(8, 10)
-
-	maxBytes := ev.Pick(1<<20, 32<<20)
+	ev.Checks(40, 60)
 
 	rapid.Check(t, func(t *rapid.T) {
 		x := newGen(t, false)
-		sh := pickOf(x, "nest-shape", nestShapes)
-		prefix := pickOf(x, "nest-prefix", nestPrefixes)
+		deepCase(t, x, pickOf(x, "nest-shape", nestShapes), pickOf(x, "nest-prefix", nestPrefixes))
+	})
+}
+
+// TestLoopDeepSearchMatrix: every recursive shape of the search key grammar under every SEARCH prefix (the other
+// parameters are drawn), so that each recursion path of parseSearchKey / handleSearchKey is driven deep in every run.
+func TestLoopDeepSearchMatrix(t *testing.T) {
+	for _, sh := range nestShapes {
+		if recursionLevels(sh.open) == 0 {
+			continue
+		}
+
+		for _, prefix := range nestPrefixes {
+			if !strings.Contains(prefix, "SEARCH") {
+				continue
+			}
+
+			sh, prefix := sh, prefix
+
+			t.Run(strings.TrimSpace(prefix)+"/"+strings.TrimSpace(sh.open), func(t *testing.T) {
+				ev.Checks(2, 4)
+				rapid.Check(t, func(t *rapid.T) { deepCase(t, newGen(t, false), sh, prefix) })
+			})
+		}
+	}
+}
+
+func deepCase(t *rapid.T, x *gen, sh struct{ open, close, leaf string }, prefix string) {
+	maxBytes := ev.Pick(1<<20, 32<<20)
+
+	{
 		closed := x.chance("nest-closed", 1, 2)
 		term := pickOf(x, "term", []string{"\r\n", "\r\n", "", "\r"})
 		size := pickOf(x, "size", []int{maxBytes / 16, maxBytes / 4, maxBytes / 2, maxBytes})
@@ -111,5 +138,5 @@ func TestLoopDeep(t *testing.T) {
 		if ev.WantSample() {
 			ev.Sample(map[string]any{"layer": "A:deep", "bytes": escaped(input, 300), "len": len(input), "child": cv.detail})
 		}
-	})
+	}
 }
